@@ -5,7 +5,8 @@ cd "$(dirname "$0")"
 export GOFLAGS=-mod=mod GOPROXY=off GOSUMDB=off GOTOOLCHAIN=local
 mkdir -p .build evidence replays
 export GOCACHE="${GOCACHE:-$PWD/.build/gocache}"
+(cd harness && go build -tags verif -o ../.build/vh .)
+./.build/vh gen-tables lean/Mamba/Gen
 (cd extract && go build -o ../.build/extract .)
 ./.build/extract "${VERIF_REPO:-/repo}" lean/Mamba/Gen .build/facts.json
-(cd harness && go build -tags verif -o ../.build/vh .)
 (cd lean && lake build)
